@@ -164,6 +164,10 @@ def d3_pipeline(ctx, rep):
             keyvar = loopvars[recv.id]
             from ..idioms import depends_on
             subs = _sample_subscripts(fn, call.args[0])
+            if not subs and depends_on(fn.node, call.args[0], _normal_sample_names(fn)):
+                rep.bad('D3.kinds', fn, call, 'the normal draw passed to the marginal is taken from the sampled frame by position, not by '
+                        'the column name: under conditioning the frame\'s columns are the sorted remaining columns, so marginals '
+                        'receive each other\'s draws', construct=f'positional selection: {short(call, 50)}')
             if subs:
                 rep.check('D3.kinds', fn, call, all(isinstance(s.slice, ast.Name) and s.slice.id == keyvar for s in subs),
                           f'the draw is selected by the same loop column ({keyvar}) as the marginal',
@@ -185,6 +189,11 @@ def d3_pipeline(ctx, rep):
             pass  # reported through the mismatch list
         else:
             rep.undecided('D3.kinds', tn, c, f'kind of the norm.ppf argument: {ks}')
+
+
+def _normal_sample_names(fn):
+    return {a.targets[0].id for a in walk_no_nested(fn.node) if isinstance(a, ast.Assign) and isinstance(a.targets[0], ast.Name)
+            and isinstance(a.value, ast.Call) and call_name(a.value) == '_get_normal_samples'}
 
 
 def _sample_subscripts(fn, expr, depth=4):
